@@ -142,6 +142,53 @@ def check_config(ck, dump, kernel, outl, perm, data, corrupt=None):
                            "entries": [{"x": e["x"], "q": e["q"], "w": e["w"]} for e in nx["entries"]][:6]})
 
 
+def alpha_history(ck, seed):
+    """Real density, one kernel / tree distribution reused while alpha changes in place and no cache is cleared:
+    reported probabilities must still sum to one and  log_w + log_q = log gamma(child) - log gamma(parent)  with gamma
+    evaluated by a fresh distribution object at the alpha now in force."""
+    from phyclone.tree import FSCRPDistribution, TreeJointDistribution, Tree
+    from phyclone.smc.swarm import Particle
+    from phyclone.smc.utils import RootPermutationDistribution
+    from .. import gridoracle
+
+    n = 4
+    tab = gridoracle.int_tables(n, 1, 5, seed)
+    data = gridoracle.data_from_tables(tab, outlier_prob=0.2)
+    parents = [absstate.canon(x) for x in ({"f": [[0]], "o": []}, {"f": [[0], [1]], "o": []}, {"f": [[0, 1], [0]], "o": [2]}, {"f": [], "o": [0]})]
+    perm = RootPermutationDistribution()
+    for kname in ("boot", "semi", "full"):
+        td = TreeJointDistribution(FSCRPDistribution(1.0))
+        rng = EnumRNG()
+        kern = kernel_cls(kname)(td, rng, outlier_proposal_prob=0.1, perm_dist=perm)
+        for alpha in (1.0, 2.5, 1.0, 0.4):
+            td.prior.alpha = alpha
+            fresh = TreeJointDistribution(FSCRPDistribution(alpha))
+            for pk in parents:
+                ptree = absstate.build(pk, data)
+                ppart = Particle(0, None, ptree, td, perm)
+                d = max(absstate.data_ids(pk)) + 1
+                pd = kern.get_proposal_distribution(data[d], ppart, ptree)
+                seen = {}
+                for t, p, _ in enumerate_paths(lambda: pd.sample(), rng):
+                    tree_t = t if isinstance(t, Tree) else t.tree
+                    k = absstate.quick_key(tree_t)
+                    lp = float(pd.log_p(t))
+                    seen[k] = lp
+                    part = kern.create_particle(lp, ppart, t)
+                    want = (float(fresh.log_p(tree_t)) + float(perm.log_pdf(tree_t)) - float(fresh.log_p(ptree)) - float(perm.log_pdf(ptree)) - lp)
+                    ck.evaluations += 1
+                    if abs(float(part.log_w) - want) > 1e-9 * (1 + abs(want)):
+                        ck.violation("C08|%s|weight_after_alpha_change" % kname,
+                                     "after alpha was set to %s on a reused kernel (no cache clear) the weight of %s from parent %s is %.12g, target ratio / q gives %.12g" % (
+                                         alpha, absstate.key_str(k), absstate.key_str(pk), float(part.log_w), want),
+                                     {"kernel": kname, "alpha": alpha, "parent": absstate.to_json(pk), "child": absstate.to_json(k)})
+                tot = sum(math.exp(v) for v in seen.values())
+                if abs(tot - 1) > 1e-9:
+                    ck.violation("C08|%s|not_normalised_after_alpha_change" % kname, "probabilities sum to %.12g after alpha was set to %s (parent %s)" % (tot, alpha, absstate.key_str(pk)),
+                                 {"kernel": kname, "alpha": alpha, "parent": absstate.to_json(pk)})
+                ck.nontrivial("alpha_history|%s|%s|%s" % (kname, alpha, absstate.key_str(pk)))
+
+
 def run(corrupt=None):
     ck = Check("C08")
     env.use_repo()
@@ -169,6 +216,8 @@ def run(corrupt=None):
     for (k, o, p), out in zip(configs, outs):
         dump = json.load(open(out))
         check_config(ck, dump, k, o, p, data, corrupt=corrupt)
+    clear_caches()
+    alpha_history(ck, ck.seed)
     ck.rule = ("every (parent forest with < %d placed points incl. empty/outlier-only, next point) x 3 kernels x outlier proposal "
                "prob {0, 0.1} x perm dist {off,on} x parent tree {given, rebuilt from particle}; non-trivial = support with > 1 candidate" % n)
     ck.exhaustive = True
